@@ -334,7 +334,8 @@ def run() -> int:
     chk.note("float_boundary_lots_not_compared_list_for_list", fbn)
     if drift:
         print(f"NOTE: {drift} lot(s) differ list-for-list from the model although C03's predicates hold on the real coordinates")
-    chk.sample({"gen": items[0]["gen"], "lot": items[0]["lot"], "unit": items[0]["unit"], "first_list": items[0]["lists"][0][:6]})
+    smp = next((i for i in items if i["lists"] and i["lists"][0]), items[0])
+    chk.sample({"gen": smp["gen"], "lot": smp["lot"], "unit": smp["unit"], "first_list": (smp["lists"][0][:6] if smp["lists"] else [])})
     # random real-valued lots
     seeds = [chk.seed * 131 + i for i in range(32 if t == "quick" else 1200)]
     nr = 0
